@@ -240,6 +240,18 @@ fn case<G: CurveTag>(bytes: &[u8], col: &mut Collector, kmax: usize, force: Opti
     Ok(())
 }
 
+/// deterministic pseudo-random choice bytes for the forced long instances (enough for every
+/// vector and factor entry to be drawn from the scalar classes)
+fn long_bytes(k: usize, f: usize) -> Vec<u8> {
+    let mut x: u64 = 0x9e37_79b9_7f4a_7c15 ^ ((k as u64) << 8 | f as u64);
+    (0..(24usize << k)).map(|_| {
+        x ^= x << 13;
+        x ^= x >> 7;
+        x ^= x << 17;
+        (x >> 24) as u8
+    }).collect()
+}
+
 fn dispatch(sub: &str, bytes: &[u8], col: &mut Collector) -> Result<(), Failure> {
     let curve = Curve::from_name(sub.split('/').nth(1).unwrap_or("")).unwrap_or(Curve::Secq);
     let kmax: usize = sub.split('/').nth(2).and_then(|s| s.parse().ok()).unwrap_or(7);
@@ -249,7 +261,7 @@ fn dispatch(sub: &str, bytes: &[u8], col: &mut Collector) -> Result<(), Failure>
 pub fn replay(sub: &str, bytes: &[u8], col: &mut Collector) -> Result<(), Failure> {
     if sub == "c10/long" && bytes.len() == 3 {
         let (k, f) = (bytes[1] as usize, bytes[2] as usize);
-        let seed_bytes = [(k as u8) * 7 + f as u8, 200, 13, 5, 1, 9, 77, 3];
+        let seed_bytes = long_bytes(k, f);
         return with_curve!(Curve::ALL[bytes[0] as usize % 3], G => case::<G>(&seed_bytes, col, 10, Some((k, f))));
     }
     dispatch(sub, bytes, col)
@@ -283,7 +295,7 @@ pub fn run(tier: &str, seed: u64) -> i32 {
             &items,
             &|(c, k, f)| vec![c.index() as u8, *k as u8, *f as u8],
             &|(c, k, f), col| {
-                let seed_bytes = [(*k as u8) * 7 + *f as u8, 200, 13, 5, 1, 9, 77, 3];
+                let seed_bytes = long_bytes(*k, *f);
                 with_curve!(*c, G => case::<G>(&seed_bytes, col, 10, Some((*k, *f))))
             },
         );
